@@ -373,6 +373,8 @@ func runC11(rc *RunCtx) {
 		}
 		results := make([]res, n)
 		s.SetFaults(120, 4, FaultErrNA, FaultPanic)
+		s.SwarmFreeze()
+		rc.Cfg("sched", fmt.Sprintf("stall=%d yield_on_release=%v", s.FreezePermille, s.YieldOnRelease))
 		s.SetControlled()
 		for i := 0; i < n; i++ {
 			i := i
